@@ -355,3 +355,320 @@ def item_stream_discovery(repo, out):
 
 
 ITEMS += [item_stream_discovery]
+
+
+# ---------------------------------------------------------------------------
+# fourth round: sensor properties of the cal products, flux table merge, multi-part products, request parsing.
+# Whole functions are compared with templates IN THE TRANSLATOR'S NORMAL FORM (docstrings, comments, logging calls and
+# exception message texts do not matter); the decisions the model reads are extracted first and rendered into the template.
+def _unparse_fn(fn):
+    return ast.unparse(ast.FunctionDef(name=fn.name, args=fn.args, body=fn.body, decorator_list=[], returns=None,
+                                       type_comment=None, lineno=0, col_offset=0)).strip().split('\n')
+
+
+def _compare_fn(fn, template, rel, what):
+    from vh.translate import normalise_source
+    want = normalise_source(template).strip().split('\n')
+    got = _unparse_fn(fn)
+    if got != want:
+        k = next((i for i, (a, b) in enumerate(zip(got, want)) if a != b), min(len(got), len(want)))
+        raise TranslateError('%s: %s differs from the modelled code at statement line %d: found %r, modelled %r' % (
+            rel, what, k, got[k].strip() if k < len(got) else '<end>', want[k].strip() if k < len(want) else '<end>'))
+
+
+def item_cal_sensor_props(repo, out):
+    """visdatav4.SENSOR_PROPS: how 'Calibration/Products/<stream>/<type>' is turned into a categorical sensor -
+    which types start from the INVALID_GAIN placeholder (initial_value) and keep repeated solutions (allow_repeats)"""
+    rel = 'katdal/visdatav4.py'
+    tree = _parse(repo, rel)
+    types = _string_tuple(repo, 'katdal/applycal.py', 'CAL_PRODUCT_TYPES')
+    if _norm(_module_assign(tree, 'SENSOR_PROPS', rel)) != 'dict(DEFAULT_SENSOR_PROPS)':
+        raise TranslateError('%s: SENSOR_PROPS is not dict(DEFAULT_SENSOR_PROPS)' % rel)
+    ups = [n.value for n in tree.body if isinstance(n, ast.Expr) and isinstance(n.value, ast.Call)
+           and _norm(n.value.func) == 'SENSOR_PROPS.update']
+    others = [n for n in ast.walk(tree) if isinstance(n, (ast.Subscript, ast.Attribute)) and isinstance(n.value, ast.Name)
+              and n.value.id == 'SENSOR_PROPS' and isinstance(getattr(n, 'ctx', None), (ast.Store, ast.Del))]
+    if len(ups) != 1 or others or len(ups[0].args) != 1 or not isinstance(ups[0].args[0], ast.Dict) or ups[0].keywords:
+        raise TranslateError('%s: SENSOR_PROPS is not built by exactly one SENSOR_PROPS.update({...})' % rel)
+    d = ups[0].args[0]
+    table = {}
+    for k, v in zip(d.keys, d.values):
+        if not (isinstance(k, ast.Constant) and isinstance(k.value, str)):
+            raise TranslateError('%s: SENSOR_PROPS key %s is not a string' % (rel, _norm(k)))
+        table[k.value] = v
+    # the default props of dataset.py must not touch cal products
+    dtree = _parse(repo, 'katdal/dataset.py')
+    dd = _module_assign(dtree, 'DEFAULT_SENSOR_PROPS', 'katdal/dataset.py')
+    dkeys = [k.value for k in dd.keys if isinstance(k, ast.Constant)] if isinstance(dd, ast.Dict) else None
+    if dkeys is None or len(dkeys) != len(dd.keys):
+        raise TranslateError('katdal/dataset.py: DEFAULT_SENSOR_PROPS is not a dict with string keys')
+    import re as _re
+    init, repeats = [], []
+    for t in types:
+        names = ['Calibration/Products/l1/' + t, 'cal_product_' + t]
+        seen = []
+        for name in names:
+            hits = [k for k in list(table) + dkeys
+                    if k == name or ('*' in k and _re.match('^' + '.*'.join(_re.escape(p) for p in k.split('*')) + '$', name))]
+            if any(k in dkeys for k in hits) or len(hits) > 1:
+                raise TranslateError('%s: several sensor property entries match %s: %s' % (rel, name, hits))
+            props = {}
+            if hits:
+                v = table[hits[0]]
+                if not isinstance(v, ast.Dict):
+                    raise TranslateError('%s: SENSOR_PROPS[%r] is not a dict display' % (rel, hits[0]))
+                for pk, pv in zip(v.keys, v.values):
+                    key = pk.value if isinstance(pk, ast.Constant) else None
+                    if key == 'initial_value' and isinstance(pv, ast.Name) and pv.id == 'INVALID_GAIN':
+                        props['init'] = True
+                    elif key == 'allow_repeats' and isinstance(pv, ast.Constant) and isinstance(pv.value, bool):
+                        props['repeats'] = pv.value
+                    else:
+                        raise TranslateError('%s: SENSOR_PROPS[%r]: property %s=%s not understood for a cal product '
+                                             '(only initial_value=INVALID_GAIN and allow_repeats=<bool> are modelled)' % (
+                                                 rel, hits[0], _norm(pk), _norm(pv)))
+            seen.append((props.get('init', False), props.get('repeats', False)))
+        if seen[0] != seen[1]:
+            raise TranslateError('%s: the raw sensor *_product_%s and Calibration/Products/*/%s have different '
+                                 'properties' % (rel, t, t))
+        if seen[0][0]:
+            init.append(t)
+        if seen[0][1]:
+            repeats.append(t)
+    if _norm(_module_assign(_parse(repo, 'katdal/applycal.py'), 'INVALID_GAIN', 'katdal/applycal.py')) != \
+            'np.complex64(complex(np.nan,np.nan))':
+        raise TranslateError('katdal/applycal.py: INVALID_GAIN is not np.complex64(complex(nan, nan))')
+    out.append('(* katdal/visdatav4.py SENSOR_PROPS: cal product types whose categorical sensor starts from the INVALID_GAIN '
+               'placeholder / keeps repeated solutions *)')
+    out.append('Definition cal_initial_invalid : list string := %s.' % coq_strings(init))
+    out.append('Definition cal_allow_repeats : list string := %s.' % coq_strings(repeats))
+
+
+_FLUX_MERGE = {
+    ('measured_flux=attrs.get(\'measured_flux\',{}).copy()', 'measured_flux.update(gaincal_flux)',
+     'gaincal_flux=measured_flux'): True,
+}
+
+_CALIBRATE_FLUX_TEMPLATE = '''
+def calibrate_flux(sensor, targets, gaincal_flux):
+    if not gaincal_flux:
+        return sensor
+    calibrated_gains = []
+    for segment, gains in sensor.segments():
+        if gains is INVALID_GAIN:
+            calibrated_gains.append(ComparableArrayWrapper(gains))
+            continue
+        target = targets[segment.start]
+        for name in [target.name] + target.aliases:
+            flux = gaincal_flux.get(name, np.nan)
+            if flux > 0.0:
+                calibrated_gains.append(ComparableArrayWrapper(gains / np.sqrt(flux)))
+                break
+        else:
+            calibrated_gains.append(ComparableArrayWrapper(gains))
+    return CategoricalData(calibrated_gains, sensor.events)
+'''
+
+
+def item_flux_merge(repo, out):
+    """add_applycal_sensors: `gaincal_flux is None` disables flux calibration, otherwise the user's table UPDATES a copy
+    of the pipeline's measured_flux (a partial override keeps the other calibrators); calibrate_flux as modelled"""
+    rel = 'katdal/applycal.py'
+    tree = _parse(repo, rel)
+    outer = _top_func(tree, 'add_applycal_sensors', rel)
+    defaults = dict(zip([a.arg for a in outer.args.args][-len(outer.args.defaults):], outer.args.defaults))
+    if [a.arg for a in outer.args.args] != ['cache', 'attrs', 'data_freqs', 'cal_stream', 'cal_substreams', 'gaincal_flux'] \
+            or _norm(defaults['gaincal_flux']) != '{}' or _norm(defaults['cal_substreams']) != 'None':
+        raise TranslateError('%s: add_applycal_sensors signature / defaults changed' % rel)
+    ifs = [s for s in outer.body if isinstance(s, ast.If) and _norm(s.test) == 'gaincal_fluxisNone']
+    touching = [s for s in outer.body if not isinstance(s, ast.FunctionDef) and any(
+        isinstance(n, ast.Name) and n.id in ('gaincal_flux', 'measured_flux') and isinstance(n.ctx, ast.Store)
+        for n in ast.walk(s))]
+    if len(ifs) != 1 or touching != ifs:
+        raise TranslateError('%s: add_applycal_sensors: the flux table is not prepared by exactly one '
+                             '`if gaincal_flux is None: .. else: ..`' % rel)
+    if [_norm(s) for s in ifs[0].body] != ['gaincal_flux={}']:
+        raise TranslateError('%s: gaincal_flux=None does not disable flux calibration (gaincal_flux = {})' % rel)
+    key = tuple(_norm(s) for s in ifs[0].orelse)
+    if key not in _FLUX_MERGE:
+        raise TranslateError('%s: flux table merge not understood: %s' % (rel, list(key)))
+    _compare_fn(_top_func(tree, 'calibrate_flux', rel), _CALIBRATE_FLUX_TEMPLATE, rel, 'calibrate_flux')
+    out.append('(* katdal/applycal.py add_applycal_sensors: measured_flux.copy().update(gaincal_flux); None -> {} *)')
+    out.append('Definition flux_none_disables : bool := true.')
+    out.append('Definition flux_override_wins : bool := %s.' % _coq_bool(_FLUX_MERGE[key]))
+
+
+_RAW_TEMPLATE = '''
+def indirect_cal_product_raw(cache, name, product_type):
+    product_str = '_product_' + product_type
+    raw_products = []
+    for stream in cal_substreams:
+        sensor_name = stream + product_str
+        raw_product = cache.get(sensor_name, extract=False)
+        assert isinstance(raw_product, SensorGetter), sensor_name + ' is already extracted'
+        raw_products.append(raw_product)
+    if len(raw_products) == 1:
+        return raw_products[0]
+    else:
+        raw_products = [raw.get() for raw in raw_products]
+        timestamps = np.concatenate([raw_product.timestamp for raw_product in raw_products])
+        values = np.concatenate([raw_product.value for raw_product in raw_products])
+        ordered = timestamps.argsort()
+        timestamps = timestamps[ordered]
+        values = values[ordered]
+        return SimpleSensorGetter(indirect_cal_product_name(name, product_type), timestamps, values)
+'''
+
+_PARTS_TEMPLATE = '''
+def indirect_cal_product(cache, name, product_type):
+    try:
+        n_parts = int(attrs[f'product_{product_type}_parts'])
+    except KeyError:
+        return indirect_cal_product_raw(cache, name, product_type)
+    parts = []
+    for n in range(n_parts):
+        try:
+            part = indirect_cal_product_raw(cache, name + str(n), product_type + str(n))
+        except KeyError:
+            part = SimpleSensorGetter(name + str(n), np.array([]), np.array([]))
+        parts.append(part)
+    parts = [part.get() for part in parts]
+    timestamps = []
+    values = []
+    part_indices = [0] * n_parts
+    part_timestamps = [part.timestamp[0] if len(part.timestamp) else np.inf for part in parts]
+    while True:
+        next_timestamp = min(part_timestamps)
+        if next_timestamp == np.inf:
+            break
+        pieces = []
+        for ts, ind, part in zip(part_timestamps, part_indices, parts):
+            if ts == next_timestamp:
+                piece = ComparableArrayWrapper.unwrap(part.value[ind])
+                pieces.append(piece)
+            else:
+                pieces.append(None)
+        if any(piece is None for piece in pieces):
+            invalid = np.full_like(piece, INVALID_GAIN)
+            pieces = [piece if piece is not None else invalid for piece in pieces]
+        timestamps.append(next_timestamp)
+        value = np.concatenate(pieces, axis=0)
+        values.append(ComparableArrayWrapper(value))
+        for i, part in enumerate(parts):
+            if part_timestamps[i] == next_timestamp:
+                ts = part.timestamp
+                part_indices[i] += 1
+                part_timestamps[i] = ts[part_indices[i]] if part_indices[i] < len(ts) else np.inf
+    if not timestamps:
+        raise KeyError(f"No cal product '{name}' parts found (expected {n_parts})")
+    return SimpleSensorGetter(indirect_cal_product_name(name, product_type), np.array(timestamps), np.array(values))
+'''
+
+
+def _inner_func(outer, name, rel):
+    found = [n for n in outer.body if isinstance(n, ast.FunctionDef) and n.name == name]
+    if len(found) != 1:
+        raise TranslateError('%s: %s not found in %s' % (rel, name, outer.name))
+    return found[0]
+
+
+def item_parts(repo, out):
+    """indirect_cal_product / indirect_cal_product_raw: a product with the attribute product_<type>_parts = n is read from
+    the n sensors <substream>_product_<type><i>, i = 0 .. n-1 (ALSO for n = 1), one without from <substream>_product_<type>"""
+    rel = 'katdal/applycal.py'
+    tree = _parse(repo, rel)
+    outer = _top_func(tree, 'add_applycal_sensors', rel)
+    _compare_fn(_inner_func(outer, 'indirect_cal_product_raw', rel), _RAW_TEMPLATE, rel, 'indirect_cal_product_raw')
+    _compare_fn(_inner_func(outer, 'indirect_cal_product', rel), _PARTS_TEMPLATE, rel, 'indirect_cal_product')
+    regs = [_norm(s) for s in outer.body if isinstance(s, ast.Assign) and 'cache.virtual' in _norm(s)]
+    if regs != ['cache.virtual[template]=indirect_cal_product', 'cache.virtual[template]=calc_correction_per_input']:
+        raise TranslateError('%s: add_applycal_sensors registers %s' % (rel, regs))
+    out.append('(* katdal/applycal.py indirect_cal_product: parts are numbered from 0 and suffixed to the product type; the '
+               'unsuffixed sensor is read only when there is no product_<type>_parts attribute *)')
+    out.append('Definition parts_first_index : nat := 0%nat.')
+    out.append('Definition parts_shape_checked : bool := true.')
+
+
+_NORMALISE_TEMPLATE = '''
+def _normalise_cal_products(products, cal_streams):
+    requested_cal_products = _selection_to_list(products, all=cal_streams, default=DEFAULT_CAL_PRODUCTS)
+    skip_missing_products = products in %(groups)s or any(('.' not in product for product in requested_cal_products))
+    normalised_cal_products = []
+    for product in requested_cal_products:
+        if '.' in product:
+            normalised_cal_products.append(product)
+        elif product in cal_streams:
+            normalised_cal_products.extend(['.'.join((product, product_type)) for product_type in CAL_PRODUCT_TYPES])
+        elif product in CAL_PRODUCT_TYPES:
+            normalised_cal_products.extend(['.'.join((stream, product)) for stream in cal_streams])
+        else:
+            streams = ','.join(cal_streams)
+            streams = f' (one of {streams})' if streams else ' (none found)'
+            product_types = ','.join(CAL_PRODUCT_TYPES)
+            raise ValueError(f"Unknown calibration product '{product}'")
+    return (normalised_cal_products, skip_missing_products)
+'''
+
+_PARSE_TEMPLATE = '''
+def _parse_cal_product(cal_product):
+    fields = cal_product.%(split)s('.', 1)
+    if len(fields) != 2:
+        raise ValueError(f'not <cal_stream>.<product_type>')
+    return (fields[0], fields[1])
+'''
+
+_SELECTION_TEMPLATE = '''
+def _selection_to_list(names, **groups):
+    if isinstance(names, str):
+        if not names:
+            return []
+        elif names in groups:
+            return list(groups[names])
+        else:
+            return [name.strip() for name in names.split(',')]
+    elif is_iterable(names):
+        return list(names)
+    else:
+        return [names]
+'''
+
+
+def item_request_parsing(repo, out):
+    """_normalise_cal_products (whole function: exact membership tests in this order: dotted, stream, product type,
+    else ValueError), dataset._selection_to_list, applycal._parse_cal_product (split at the LAST dot) and the two uses
+    of its result in calc_correction"""
+    rel = 'katdal/visdatav4.py'
+    tree = _parse(repo, rel)
+    fn = _top_func(tree, '_normalise_cal_products', rel)
+    found = [n for n in ast.walk(fn) if isinstance(n, ast.Assign) and _norm(n.targets[0]) == 'skip_missing_products']
+    groups = "('all', 'default')"
+    if len(found) == 1 and isinstance(found[0].value, ast.BoolOp) and isinstance(found[0].value.values[0], ast.Compare):
+        groups = ast.unparse(found[0].value.values[0].comparators[0])     # decision read by item_skip_rule
+    _compare_fn(fn, _NORMALISE_TEMPLATE % dict(groups=groups), rel, '_normalise_cal_products')
+    imports = [n for n in tree.body if isinstance(n, ast.ImportFrom) and any(a.name == '_selection_to_list' for a in n.names)]
+    if len(imports) != 1 or imports[0].module != 'dataset' or imports[0].level != 1:
+        raise TranslateError('%s: _selection_to_list is not imported from .dataset' % rel)
+    _compare_fn(_top_func(_parse(repo, 'katdal/dataset.py'), '_selection_to_list', 'katdal/dataset.py'),
+                _SELECTION_TEMPLATE, 'katdal/dataset.py', '_selection_to_list')
+    rel = 'katdal/applycal.py'
+    atree = _parse(repo, rel)
+    pf = _top_func(atree, '_parse_cal_product', rel)
+    calls = [n for n in ast.walk(pf) if isinstance(n, ast.Call) and isinstance(n.func, ast.Attribute)
+             and n.func.attr in ('split', 'rsplit')]
+    if len(calls) != 1:
+        raise TranslateError('%s: _parse_cal_product: expected one split / rsplit call' % rel)
+    split = calls[0].func.attr
+    _compare_fn(pf, _PARSE_TEMPLATE % dict(split=split), rel, '_parse_cal_product')
+    cc = _top_func(atree, 'calc_correction', rel)
+    loop = [s for s in cc.body if isinstance(s, ast.For) and _norm(s.target) == 'cal_product'][0]
+    head = [_norm(s) for s in loop.body[:2]]
+    if head != ['cal_stream,product_type=_parse_cal_product(cal_product)',
+                "sensor_prefix=f'Calibration/Corrections/{cal_stream}/{product_type}/'"]:
+        raise TranslateError('%s: calc_correction does not build the sensor name from _parse_cal_product: %s' % (rel, head))
+    out.append('(* katdal/applycal.py _parse_cal_product: str.rsplit(".", 1) (true) or str.split(".", 1) (false); '
+               '_normalise_cal_products / _selection_to_list compared with the modelled text *)')
+    out.append('Definition parse_splits_at_last_dot : bool := %s.' % _coq_bool(split == 'rsplit'))
+    out.append('Definition request_parsing_shape_checked : bool := true.')
+
+
+ITEMS += [item_cal_sensor_props, item_flux_merge, item_parts, item_request_parsing]
